@@ -266,30 +266,25 @@ Definition walk_mount_static (cf : config) (st : wstate) (dest src : string) (rm
 (* physical position (container components) of the host position [pos] *)
 Definition cpos_of_host (cf : config) (pos : list string) : option (list string) :=
   if is_prefix (c_hout cf) pos then Some (abs_comps (c_ctr cf) ++ skipn (List.length (c_hout cf)) pos)%list else None.
-(* lexical and physical reading of a link target differ (finding F16) *)
+(* finding F16: the copier reasons about the STRING it computed for a link target.  Trigger: that string and the
+   physical reading of the target name different entries, or the string passes through a symlink (so that string tests
+   such as "is it under a secret mount" look at another path than the one the kernel reaches). *)
+Definition kres_eqb (a b : kres) : bool :=
+  match a, b with
+  | KAt x, KAt y => path_eqb x y
+  | KErrAt x, KErrAt y => path_eqb x y
+  | KAbs, KAbs => true
+  | KUnknown, KUnknown => true
+  | _, _ => false
+  end.
+Definition through_link (cf : config) (lexical : string) : bool :=
+  negb (kres_eqb (kwalk (clook cf) true true 0 [] (comps_of lexical)) (kwalk (clook cf) true true 40 [] (comps_of lexical))).
 Definition lexical_differs (cf : config) (linkpos : list string) (target lexical : string) : bool :=
+  through_link cf lexical ||
   match cpos_of_host cf linkpos with
   | None => true
-  | Some cp =>
-      match cwalk cf (removelast cp) target, cwalk cf [] lexical with
-      | KAt a, KAt b => negb (path_eqb a b)
-      | KErrAt a, KErrAt b => negb (path_eqb a b)
-      | KErrAt _, KAt b => true
-      | KAt a, KErrAt _ => true
-      | _, _ => true
-      end
+  | Some cp => negb (kres_eqb (cwalk cf (removelast cp) target) (cwalk cf [] lexical))
   end.
-
-(* nesting depth of the host tree: fuel for directory recursion *)
-Fixpoint height (fuel : nat) (n : node) : nat :=
-  match fuel with
-  | O => O
-  | S f => match n with
-           | Dir ents => S (fold_left (fun acc e => Nat.max acc (height f (snd e))) ents O)
-           | _ => 1
-           end
-  end.
-Definition depth_fuel (cf : config) : nat := height 64 (c_host cf) + 4.
 
 Section Copier.
   Variable cf : config.
